@@ -59,6 +59,19 @@ class PipeScenario(Scenario):
             from streamz import Stream
             self._idle = Stream(asynchronous=up.asynchronous, loop=up.loop) if up.loop is not None else Stream()
             return up.union(self._idle)
+        if name == "accumulate_ws":         # with_state=True emits (state, result)
+            return up.accumulate(lambda s, x: x, start=0, with_state=True).map(lambda t: t[1])
+        if name == "accumulate_ws_nostart":  # ... and the first element takes the no-start branch
+            return up.accumulate(lambda s, x: x, with_state=True).map(lambda t: t[1])
+        if name == "pluck_list":
+            return up.map(lambda x: (x, x)).pluck([0, 1]).map(lambda t: t[0])
+        if name == "unique_list":
+            return up.unique(hashable=False)
+        if name == "stream":                # a bare Stream in the middle of the pipeline (a.connect(b))
+            from streamz import Stream
+            b = Stream(asynchronous=up.asynchronous, loop=up.loop) if up.loop is not None else Stream()
+            up.connect(b)
+            return b
         if name == "flatten2":       # two pieces per element: (x, 'a') then (x, 'b')
             return up.map(lambda x: ((x, "a"), (x, "b"))).flatten()
         if name == "accumulate_nostart":    # first element takes the "state is no_default" branch
